@@ -123,6 +123,47 @@ func collisions() [][2]keyT {
 	return collPairs
 }
 
+// aliasPairs are (exporter,id) pairs that a carelessly derived cache key could map onto one entry although
+// the hash of address‖id differs: textual concatenation without a separator, part of the address ignored,
+// octets combined commutatively, part of the id ignored, byte order of the id.
+func aliasPairs() [][2]keyT {
+	ip := func(s string) []byte {
+		p := net.ParseIP(s)
+		if v4 := p.To4(); v4 != nil && !strings.Contains(s, ":") {
+			return append([]byte{}, v4...)
+		}
+		return append([]byte{}, p.To16()...)
+	}
+	m := func(s string) []byte { // IPv4-mapped 16-byte form
+		b := make([]byte, 16)
+		b[10], b[11] = 0xff, 0xff
+		copy(b[12:], net.ParseIP(s).To4())
+		return b
+	}
+	return [][2]keyT{
+		{{ip("10.0.0.1"), 1256}, {ip("10.0.0.11"), 256}}, // "10.0.0.1"+"1256" == "10.0.0.11"+"256"
+		{{ip("10.0.0.2"), 2560}, {ip("10.0.0.22"), 560}},
+		{{m("10.0.0.1"), 1256}, {m("10.0.0.11"), 256}},
+		{{ip("2001:db8::1"), 1256}, {ip("2001:db8::11"), 256}},
+		{{ip("192.0.2.25"), 6000}, {ip("192.0.2.2"), 56000}},
+		{{ip("10.1.2.3"), 256}, {ip("11.1.2.3"), 256}}, // differ in the first octet only
+		{{ip("10.1.2.3"), 256}, {ip("10.1.2.4"), 256}}, // last octet only
+		{{ip("10.1.2.3"), 256}, {ip("10.2.1.3"), 256}}, // same octets, other order
+		{{ip("1.2.3.4"), 300}, {ip("4.3.2.1"), 300}},
+		{{m("10.1.2.3"), 257}, {m("10.1.3.2"), 257}},
+		{{ip("2001:db8:1::7"), 256}, {ip("2001:db8:2::7"), 256}},         // differ in the upper 64 bits only
+		{{ip("2001:db8::1:0:0:7"), 256}, {ip("2001:db8::2:0:0:7"), 256}}, // differ in the lower 64 bits only
+		{{ip("2001:db8::7"), 256}, {ip("2001:db9::7"), 256}},
+		{{ip("198.51.100.9"), 256}, {ip("198.51.100.9"), 512}},   // id & 0xff equal
+		{{ip("198.51.100.9"), 300}, {ip("198.51.100.9"), 556}},   // id + 256
+		{{ip("198.51.100.9"), 256}, {ip("198.51.100.9"), 33024}}, // id ^ 0x8000
+		{{ip("198.51.100.9"), 258}, {ip("198.51.100.9"), 513}},   // 0x0102 / 0x0201
+		{{m("198.51.100.9"), 1000}, {m("198.51.100.9"), 1001}},
+		{{ip("0.0.1.0"), 256}, {ip("0.0.0.1"), 256}},
+		{{ip("255.255.255.255"), 65535}, {ip("255.255.255.254"), 65535}},
+	}
+}
+
 func akey(addr []byte, id uint16) string { return fmt.Sprintf("%x/%d", addr, id) }
 
 // genHistory builds a history and its expectations from a reference map updated in history order.
@@ -140,7 +181,11 @@ func genHistory(g *mon.RNG, proto string, snap []wire.Elem, pair *[2]keyT) *hist
 		if pair[1].ID != pair[0].ID {
 			ids = append(ids, pair[1].ID)
 		}
-		c.KeyFacts = fmt.Sprintf("FNV-1-32(%x‖%d) = FNV-1-32(%x‖%d) = %#x", pair[0].Addr, pair[0].ID, pair[1].Addr, pair[1].ID, fnvKey(pair[0].Addr, pair[0].ID))
+		if fnvKey(pair[0].Addr, pair[0].ID) == fnvKey(pair[1].Addr, pair[1].ID) {
+			c.KeyFacts = fmt.Sprintf("FNV-1-32(%x‖%d) = FNV-1-32(%x‖%d) = %#x", pair[0].Addr, pair[0].ID, pair[1].Addr, pair[1].ID, fnvKey(pair[0].Addr, pair[0].ID))
+		} else {
+			c.KeyFacts = fmt.Sprintf("structurally aliasing keys: (%v, %d) and (%v, %d)", net.IP(pair[0].Addr), pair[0].ID, net.IP(pair[1].Addr), pair[1].ID)
+		}
 	} else {
 		ne := g.Range(2, 6)
 		if g.Chance(1, 10) {
@@ -442,6 +487,14 @@ func histMain(args mon.Args) {
 		p := pairs[i%len(pairs)]
 		one(g, []string{"ipfix", "nf9"}[(i/len(pairs))%2], &p, i < 2)
 	})
+	ap := aliasPairs()
+	run.Set("structurally_aliasing_key_pairs", len(ap))
+	na := run.Pick(20*len(ap), 300*len(ap))
+	mon.ParallelFor(na, func(i int) {
+		g := mon.NewRNG(run.Seed, "histalias", i)
+		p := ap[i%len(ap)]
+		one(g, []string{"ipfix", "nf9"}[(i/len(ap))%2], &p, false)
+	})
 	// canary
 	{
 		g := mon.NewRNG(run.Seed, "canary", 0)
@@ -464,7 +517,7 @@ func histMain(args mon.Args) {
 			run.HarnessError("canary: comparator accepted a corrupted expectation")
 		}
 	}
-	run.SetRule("seeded histories of 5-200 messages over 2-50 exporters (4-byte, IPv4-mapped, IPv6) and a pool of 2-5 template ids: announcements, re-announcements with a different definition, data, announce+data and data/redefinition/data inside one message; a reference map (address octets, id) → latest definition, updated in history order, gives the expected records and the expected 'unknown template' reports of every message; IPFIX peer lookups (IRPC.Get directly and through a real net/rpc server on loopback) must return exactly the reference entry or 'not available'. Adversarial histories use key pairs with equal FNV-1-32 of address‖id (found by birthday search: same id on two exporters, different ids, IPv4/IPv6/mapped forms). distinct = (protocol, colliding, sizes, first datagram); non-trivial = at least one record expected")
+	run.SetRule("seeded histories of 5-200 messages over 2-50 exporters (4-byte, IPv4-mapped, IPv6) and a pool of 2-5 template ids: announcements, re-announcements with a different definition, data, announce+data and data/redefinition/data inside one message; a reference map (address octets, id) → latest definition, updated in history order, gives the expected records and the expected 'unknown template' reports of every message; IPFIX peer lookups (IRPC.Get directly and through a real net/rpc server on loopback) must return exactly the reference entry or 'not available'. Adversarial histories use key pairs with equal FNV-1-32 of address‖id (found by birthday search: same id on two exporters, different ids, IPv4/IPv6/mapped forms) and 20 structurally aliasing pairs (decimal concatenation without separator, addresses differing in one part only or with permuted octets, ids equal modulo 256 / xor 0x8000 / byte-swapped). distinct = (protocol, colliding, sizes, first datagram); non-trivial = at least one record expected")
 	run.Assume("the client side of the peer fetch (multicast discovery + RPC() loop) cannot run in this sandbox (no interface with flags == 19); only IRPC.Get is exercised")
 	run.Set("sub_claims_not_reached", []string{"peer-fetch client loop (ipfix.RPC): needs multicast discovery"})
 	run.Finish()
